@@ -206,7 +206,7 @@ class Ctx:
 
     # ------------------------------------------------------------- verdicts
     def write_replay(self, obj):
-        d = VERIF / 'evidence' / 'replay'
+        d = Path(os.environ.get('VERIF_EVIDENCE_DIR', VERIF / 'evidence')) / 'replay'
         d.mkdir(parents=True, exist_ok=True)
         body = json.dumps(obj, indent=1, sort_keys=True, default=str)
         h = hashlib.sha1(body.encode()).hexdigest()[:10]
@@ -258,8 +258,9 @@ class Ctx:
             'wall_s': round(time.time() - self.t0, 2),
             'violations': len(self.violations),
         }
-        (VERIF / 'evidence').mkdir(exist_ok=True)
-        (VERIF / 'evidence' / f'{self.prop}.json').write_text(json.dumps(ev, indent=1, default=str) + '\n')
+        evdir = Path(os.environ.get('VERIF_EVIDENCE_DIR', VERIF / 'evidence'))     # mutation experiments write elsewhere
+        evdir.mkdir(parents=True, exist_ok=True)
+        (evdir / f'{self.prop}.json').write_text(json.dumps(ev, indent=1, default=str) + '\n')
         for sig, text in self.known_hits:
             print(f'KNOWN-FINDING: property={self.prop} {sig}: {text}')
         for sig, text, path, nofail in self.violations:
